@@ -1051,6 +1051,25 @@ def e_Compare(self, st, node):
 # ----------------------------------------------------------------------
 # attribute access
 # ----------------------------------------------------------------------
+def _wrapped_function(self, lc, owner):
+    """class-level `name = staticmethod(f)` / `classmethod(f)` / `name = f` with f a function of the module or the class"""
+    ci, node = lc[0], lc[1]
+    kind = None
+    if isinstance(node, ast.Call) and isinstance(node.func, ast.Name) and node.func.id in ("staticmethod", "classmethod") \
+            and len(node.args) == 1 and not node.keywords:
+        kind, node = node.func.id, node.args[0]
+    if not isinstance(node, ast.Name):
+        return None
+    f = ci.methods.get(node.id) or ci.module.functions.get(node.id)
+    if f is None:
+        return None
+    if kind == "classmethod":
+        return BoundMeth(owner if isinstance(owner, ClassVal) else ClassVal(ci), f)
+    if kind == "staticmethod":
+        return FuncVal(f)
+    return None
+
+
 def e_Attribute(self, st, node):
     res = []
     for (s, k, base) in self.eval(st, node.value):
@@ -1112,6 +1131,9 @@ def get_attr(self, st, base, attr, node, default=KeyError):
                     return [(st, "val", st.ghost[ck])]       # a class attribute written at run time
             lc = o.cls.lookup_const(attr)
             if lc is not None:
+                wf = _wrapped_function(self, lc, ClassVal(o.cls))
+                if wf is not None:
+                    return [(st, "val", wf)]
                 try:
                     return [(st, "val", self.x_const(st, "%s.%s" % (lc[0].fullname, attr), self.ix.fold(lc[1], lc[0].module)))]
                 except NotConst:
@@ -1221,6 +1243,9 @@ def get_attr(self, st, base, attr, node, default=KeyError):
                 return [(st, "val", Builtin("noop"))]
             lc = ci.lookup_const(attr)
             if lc is not None:
+                wf = _wrapped_function(self, lc, base)
+                if wf is not None:
+                    return [(st, "val", wf)]
                 try:
                     return [(st, "val", self.x_const(st, "%s.%s" % (lc[0].fullname, attr), self.ix.fold(lc[1], lc[0].module)))]
                 except NotConst:
